@@ -75,8 +75,17 @@ func aggEvalSnap(r *core.Run, s *stack.Snapshot, c *aggCase) [4][][]int {
 		byID[g.ID] = g
 	}
 	for li, lvl := range allLevels {
-		a := s.Aggregate(lvl)
+		var a *stack.Aggregated
+		var panicked any
+		func() {
+			defer func() { panicked = recover() }()
+			a = s.Aggregate(lvl)
+		}()
 		r.Eval(1)
+		if panicked != nil {
+			report("panic/"+levelNames[li], fmt.Sprintf("Aggregate(%s) panicked: %v", levelNames[li], panicked))
+			return parts
+		}
 		got := mon.GotPartition(a)
 		parts[li] = got
 		switch r.Prop {
@@ -346,6 +355,11 @@ func similarLaws(r *core.Run, uname string) {
 		}
 		bad := ""
 		core.Parallel(n, workers(), func(i int) {
+			defer func() {
+				if p := recover(); p != nil {
+					bad = fmt.Sprintf("merge of two similar signatures panicked (%v) with %s", p, u[i].Desc)
+				}
+			}()
 			if !sim[i][i] {
 				bad = fmt.Sprintf("not reflexive on %s", u[i].Desc)
 			}
